@@ -66,8 +66,19 @@ func nativeMapToObject(val any) Object {
 
 	valValue := reflect.ValueOf(val)
 
+	// only maps with string keys can become objects
+	if valValue.Type().Key().Kind() != reflect.String {
+		return nil
+	}
+
 	for _, key := range valValue.MapKeys() {
-		obj.Pairs[key.String()] = NativeToObject(valValue.MapIndex(key).Interface())
+		pair := NativeToObject(valValue.MapIndex(key).Interface())
+
+		if pair == nil {
+			return nil
+		}
+
+		obj.Pairs[key.String()] = pair
 	}
 
 	return obj
@@ -103,17 +114,29 @@ func nativeStructToObject(val any) Object {
 
 		fieldVal := reflect.ValueOf(val).Field(i).Interface()
 
-		obj.Pairs[field.Name] = NativeToObject(fieldVal)
+		pair := NativeToObject(fieldVal)
+
+		if pair == nil {
+			return nil
+		}
+
+		obj.Pairs[field.Name] = pair
 	}
 
 	return obj
 }
 
-func nativeSliceToArrayObject(slice []any) *Array {
+func nativeSliceToArrayObject(slice []any) Object {
 	arr := &Array{}
 
 	for _, val := range slice {
-		arr.Elements = append(arr.Elements, NativeToObject(val))
+		elem := NativeToObject(val)
+
+		if elem == nil {
+			return nil
+		}
+
+		arr.Elements = append(arr.Elements, elem)
 	}
 
 	return arr
